@@ -54,3 +54,28 @@ prop('C17', ground=['astpass:c17_forwarding'], bounded=['robust'],
 prop('C19', ground=['astpass:c19_ownership'], bounded=['robust'],
      explanation='sufficient frame condition: no function reachable from parse/build/encode/validate writes a process-wide '
                  'object (ownership pass over the AST + digest of the process-wide objects around a call corpus + threads)')
+
+
+TECHNIQUE = {
+    'C01': 'ground table obligations (every row) + SMT-discharged contracts on encoder helpers + bounded round-trip driver',
+    'C02': 'ground position lemma executed on every table row + SMT-discharged contract on Segment.add',
+    'C03': 'SMT-discharged contract on _remove_trailing + forwarding pass over the AST + bounded round-trip driver',
+    'C04': 'SMT-discharged contracts on the validator closures + bounded instance/mutation driver',
+    'C05': 'SMT-discharged admission contract (_can_add_child) + forwarding pass + bounded STRICT/TOLERANT drivers',
+    'C06': 'SMT-discharged contracts pinning the translation table and escape pattern + class-alphabet enumeration of the real _escape_value (bounded)',
+    'C07': 'SMT-discharged contracts on check_encoding_chars / _split_msh / get_message_info / default resolvers + bounded delimiter driver',
+    'C08': 'ownership and forwarding passes over the AST + bounded group-finding driver (recursive search contract drafted, not run)',
+    'C09': 'contract-based deductive verification of the ElementList mutators (about 1 100 SMT-discharged obligations from the real AST) + bounded history driver',
+    'C10': 'contract-based deductive verification of the attach path (back-pointers, separation invariant) + bounded history driver',
+    'C11': 'SMT-discharged frame clauses of the read / traversal paths + bounded history driver',
+    'C12': 'SMT-discharged exceptional postconditions (raises => view unchanged, no half-attach) + bounded history driver',
+    'C13': 'SMT-discharged contracts on format selection + ownership pass + bounded lexical corpus against the HL7 definitions',
+    'C14': 'SMT-discharged contracts on name resolution against the find_child_reference interface + bounded addressing driver',
+    'C15': 'SMT-discharged raises clauses (no undeclared exception escapes the header functions) + bounded mutation corpus',
+    'C16': 'SMT-discharged framing contract (to_mllp) and routing key contract (get_message_type) + real server on loopback (bounded); interleavings not explored',
+    'C17': 'SMT-discharged contracts on the default resolvers + package-wide forwarding pass over every call site + bounded configuration sweep',
+    'C18': 'forwarding pass over the AST + bounded profile driver (lookup, legacy detection, reference threading, no-op profile)',
+    'C19': 'ownership pass over every store / mutating call / global declaration (sufficient frame condition) + digest and thread corpus (bounded); schedules not explored',
+}
+for _p, _t in TECHNIQUE.items():
+    PROPS[_p]['technique'] = _t
